@@ -834,6 +834,19 @@ def ex_verdict(p, seed):
                 agg.fail("%s:%s:%s" % (name, "accepts-violation" if got else "rejects-valid",
                                        "default-atol" if atol_arg is None else "explicit-atol"),
                          "%s: first-row max %.3g, min eig K %.3g, expected %s got %s" % (ctx, row, mineig, want, got))
+        # the two tolerances of is_physical are separate: each constraint is judged with its own one (the other made irrelevant)
+        if tp is not None and cp is not None:
+            loose = 1e6 * max(atol, row, max(0.0, -mineig), 1e-300)
+            for label, args, want2 in (("eq-tolerance-only-strict", (atol, loose), tp), ("ineq-tolerance-only-strict", (loose, atol), cp)):
+                ok, got = A.call(L.is_physical, atol_eq_const=args[0], atol_ineq_const=args[1])
+                out.ops += 1
+                out.count("verdict_mixed_tolerances")
+                if not ok:
+                    agg.fail("is_physical:raises:%s" % excsig(got), "%s (%s): %s" % (ctx, label, A.fmt_exc(got)))
+                elif bool(got) != want2:
+                    agg.fail("is_physical:%s:separate-tolerances:%s" % ("accepts-violation" if got else "rejects-valid", label),
+                             "%s: atol_eq_const=%g atol_ineq_const=%g, first-row max %.3g, min eig K %.3g, expected %s got %s" % (
+                                 ctx, args[0], args[1], row, mineig, want2, got))
         if atol_arg is None and phys is not None:
             ok, got = A.call(EffectiveLindbladian, c, hs.copy())
             out.ops += 1
@@ -1221,6 +1234,6 @@ def guards(summary):
             "expm_gate_physical", "expm_non_unital_gate", "expm_far_from_identity",
             "proj_eq_nonzero_first_row", "proj_ineq_clipped_eigenvalue", "proj_ineq_physical_input",
             "proj_ineq_degenerate-spectrum", "proj_ineq_simple-spectrum", "var_flag_True", "var_flag_False", "var_physical_round_trip",
-            "build_after_column_major_request"]
+            "build_after_column_major_request", "verdict_mixed_tolerances"]
     need += ["expm_time_%g" % t for t in SCALES] + ["expm_strength_%g" % t for t in SCALES] + ["build_scale_%g" % t for t in SCALES]
     return ["never observed: %s" % k for k in need if info.get(k, 0) < 1]
